@@ -653,6 +653,8 @@ fn lm_problem_wide(r: &mut Rng, model: usize, n: usize, noise: f64, start: u8) -
         2 => { let z = r.below(np as u64) as usize; (0..np).map(|i| if i == z { 0.0 } else { r.uniform(-3.0, 3.0) }).collect() }
         3 => truth.iter().map(|_| r.uniform(-3.0, 3.0)).collect(),
         4 => truth.iter().map(|_| r.uniform(-10.0, 10.0)).collect(),
+        6 => truth.iter().map(|_| r.uniform(-1.0, 1.0) * 500.0).collect(),
+        7 => truth.iter().map(|_| (if r.coin(0.5) { 1.0 } else { -1.0 }) * r.uniform(0.5, 1.0) * 1e6).collect(),
         _ => truth.clone(),
     };
     (e, vec![xs, ys], x0, tag)
@@ -868,6 +870,32 @@ fn oracle_wide(thorough: bool, seed: u64, tried: &mut u64, out: &mut Vec<Finding
         }
     }
 
+    // W6. parameters of tiny magnitude that still change by O(1) relative amounts: c x^2 (minimiser 0) started at 1e-20 .. 1e-200; with
+    //     2 c h > 1 the iterate changes sign at every step, with 2 c h < 1 it shrinks by a constant factor: neither is convergence, the
+    //     k-th iterate is returned (seeded change C10-10 took new * old <= 0, which also holds when the product underflows, for a zero)
+    for it in 0..(if thorough { 240 } else { 60 }) {
+        let c = [1.0, 2.0, 3.0, 0.5][it % 4];
+        let x0 = [1e-20, -1e-20, 1e-200, -1e-170, 3e-17, 1e-300, 2.5e-162][(it / 4) % 7];
+        let h = [0.5, 0.25, 0.4, 0.125][(it / 28) % 4];
+        let two = it % 3 == 0;
+        let mut terms = vec![E::MulC(b(E::Powi(b(E::Par(0)), 2)), C::Lit(c))];
+        if two { terms.push(E::MulC(b(E::Powi(b(E::Par(1)), 2)), C::Lit(1.5))); }
+        let e = sum_chain(terms);
+        let cs: Vec<f64> = if two { vec![x0, -x0 * 0.75] } else { vec![x0] };
+        for k in [1usize, 2, 3, 10] {
+            *tried += 2;
+            let hs = (h, if it % 5 == 4 { 0.5 } else { 0.0 }, it % 10 == 9);
+            let inp = format!("{} SGD::new({:e}, {:e}, {}) maxsteps={}", fmt_in(&e, &[], &cs), hs.0, hs.1, hs.2, k);
+            crumb(&inp);
+            judge("sgd", &sgd_impl(&e, &[], hs, &cs, k), &sgd_ref(&e, &[], hs, &cs, k), k, &inp, out);
+            let hp = (h * 1e-3, 0.9, 0.999, 1e-8);
+            let inp = format!("{} Adam::new({:e}, 0.9, 0.999, 1e-8) maxsteps={}", fmt_in(&e, &[], &cs), hp.0, k);
+            crumb(&inp);
+            judge("adam", &adam_impl(&e, &[], hp, &cs, k), &adam_ref(&e, &[], hp, &cs, k), k, &inp, out);
+        }
+        if out.len() > 40 { return; }
+    }
+
     // W3. the other public constructors / setters: Adam::default (Kingma-Ba's recommended values), with_stepsize, set_stepsize;
     //     SGD::default, set_stepsize; and W5. determinism of a REUSED optimiser (the tape is owned by it) with another problem in between
     let sgd_def = sgd_default_fields();
@@ -965,6 +993,18 @@ fn oracle_wide(thorough: bool, seed: u64, tried: &mut u64, out: &mut Vec<Finding
         let noise = *r.pick(&[0.01, 0.1, 0.3]);
         let (e, d, x0, _) = lm_problem_wide(&mut r, model, n, noise, 5);
         let hp = (*r.pick(&[1e-6, 1e-9]), *r.pick(&[1e-6, 1e-10]), if it % 2 == 0 { 1.0 } else { 1e-2 });
+        lm_judge(&e, &d, &x0, hp, 200, false, true, tried, out);
+        if out.len() > 60 { return; }
+    }
+    // W9. models linear in the parameters started FAR from the solution (|x0| ~ 500 and ~ 1e6, the solution is O(1)): the stopping
+    //     tests are relative to the CURRENT iterate, so the least-squares solution is still reached (seeded change C10-11 froze the
+    //     step tolerance at the start point)
+    for it in 0..(if thorough { 400 } else { 48 }) {
+        let model = [1usize, 6, 7, 0, 5][it % 5];
+        let n = [50usize, 200, 12, 120][(it / 5) % 4];
+        let noise = *r.pick(&[0.01, 0.1, 0.3]);
+        let (e, d, x0, _) = lm_problem_wide(&mut r, model, n, noise, if it % 2 == 0 { 6 } else { 7 });
+        let hp = (*r.pick(&[1e-6, 1e-9]), *r.pick(&[1e-6, 1e-10]), if it % 4 < 2 { 1.0 } else { 1e-2 });
         lm_judge(&e, &d, &x0, hp, 200, false, true, tried, out);
         if out.len() > 60 { return; }
     }
